@@ -5,7 +5,7 @@ COMMON_NOTE = ("Trusted: Lean 4.33.0 kernel; axioms propext, Classical.choice, Q
                "MsgExecLegacyContent and baseapp/gov branching are modelled and validated on every operation of the run, not verified. ")
 
 SUITES = {
-    "params": dict(quick_ops=4000, thorough_ops=30000, driver="params", accept_floor=20),
+    "params": dict(quick_ops=10000, thorough_ops=30000, driver="params", accept_floor=20),
 }
 
 PROPS = {
